@@ -459,7 +459,7 @@ def s_gcp(draw):
     probes = [[draw(st.integers(0, 16)) / 16, draw(st.integers(0, 16)) / 16] for _ in range(3)]
     # a second view-changing step on top of the first (crop/pad of a zoomed box, zoom of a cropped box, ...): the
     # derived box then carries both a non-unit scale and a non-zero offset relative to the control points' frame
-    op2 = draw(st.sampled_from(["none", "none", "getitem", "pad", "zoom_out"]))
+    op2 = draw(st.sampled_from(["none", "none", "getitem", "pad", "zoom_out", "pad_wh", "zoom_to"]))
     P2 = {}
     if op2 == "getitem":
         P2 = {"f": sorted([draw(st.integers(0, 7)) / 8, draw(st.integers(1, 8)) / 8]) + sorted([draw(st.integers(0, 7)) / 8, draw(st.integers(1, 8)) / 8])}
@@ -467,6 +467,10 @@ def s_gcp(draw):
         P2 = {"px": draw(st.integers(0, 5)), "py": draw(st.integers(0, 5))}
     elif op2 == "zoom_out":
         P2 = {"f": draw(st.sampled_from([2, 3, 1.5, 4]))}
+    elif op2 == "pad_wh":
+        P2 = {"ax": draw(st.sampled_from([2, 4, 16, 7]))}
+    elif op2 == "zoom_to":
+        P2 = {"shape": [draw(st.integers(1, 40)), draw(st.integers(1, 40))]}
     return {"WH": [W, H], "kind": kind, "pts": pts, "A": coeffs, "klass": klass, "bend": bend, "op": op, "P": P, "op2": op2, "P2": P2, "probes": probes, "crs": draw(crs_tags())}
 
 
@@ -563,6 +567,14 @@ def o_gcp(case, T):
         elif op2 == "pad":
             out2 = out.pad(P2["px"], P2["py"])
             off2, sc2, shape2 = (-P2["px"], -P2["py"]), (1.0, 1.0), (h1 + 2 * P2["py"], w1 + 2 * P2["px"])
+        elif op2 == "pad_wh":
+            a2 = P2["ax"]
+            out2 = out.pad_wh(a2)
+            off2, sc2, shape2 = (0, 0), (1.0, 1.0), (-(-h1 // a2) * a2, -(-w1 // a2) * a2)
+        elif op2 == "zoom_to":
+            sh2 = P2["shape"]
+            out2 = out.zoom_to(tuple(sh2))
+            off2, sc2, shape2 = (0, 0), (w1 / sh2[1], h1 / sh2[0]), tuple(sh2)
         else:
             f2 = P2["f"]
             out2 = out.zoom_out(f2)
